@@ -326,3 +326,19 @@ Example frag_prog_in_fragment : fragment_prog [] frag_prog = true. Proof. vm_com
 Example frag_prog_evaluates : evaluates frag_prog = true. Proof. vm_compute. reflexivity. Qed.
 Example frag_prog_accepted : checker_accepts frag_prog = true. Proof. vm_compute. reflexivity. Qed.
 Example frag_prog_unclassified : known_c07_wide frag_prog = false. Proof. vm_compute. reflexivity. Qed.
+
+(* ---- the run-time exemplar check (761a6c7): whatever was bound to y, `let x :: 0 = y;` binds an int only ---- *)
+Definition env_str : renv bits_ops := [(b "y", @RStr bits_ops (b "s"))].
+Definition env_int : renv bits_ops := [(b "y", @RInt bits_ops 7%Z)].
+Definition let_x_int_y : cstmt := CLet (b "x") (Some (CPlain (EInt 0%Z))) (ESym (b "y")).
+Definition stmt_ok (s : cstmt) (re : renv bits_ops) : bool :=
+  match run_stmt bits_ops s re with Ok _ => true | _ => false end.
+Example runtime_exemplar_rejects : stmt_ok let_x_int_y env_str = false.
+Proof. vm_compute. reflexivity. Qed.
+Example runtime_exemplar_accepts : stmt_ok let_x_int_y env_int = true.
+Proof. vm_compute. reflexivity. Qed.
+(* {a = 0, b = ""} against {a = 1}: a field subset conforms; against {a = 1, c = 2}: incomparable field sets *)
+Example runtime_exemplar_tuple :
+  runtime_ok bits_ops (VExemplar (VTuple [(b "a", vi 0); (b "b", vs "")])) (VTuple [(b "a", vi 1)]) = true
+  /\ runtime_ok bits_ops (VExemplar (VTuple [(b "a", vi 0); (b "b", vs "")])) (VTuple [(b "a", vi 1); (b "c", vi 2)]) = false.
+Proof. split; vm_compute; reflexivity. Qed.
